@@ -9,7 +9,7 @@ use crate::store::*;
 use crate::store_ops::*;
 use crate::util::*;
 use sierradb::bucket::segment::{BucketSegmentReader, Record};
-use sierradb::database::Database;
+use sierradb::database::{Database, NewEvent, Transaction};
 use sierradb::IterDirection;
 use sierradb::StreamId;
 use sierradb_protocol::ExpectedVersion;
@@ -44,7 +44,11 @@ pub async fn conc_history(ctx: &mut Ctx, root: &std::path::Path, tag: &str) {
     let db: Database = match open_db(&w.dir, &w.cfg) { Ok(db) => db, Err(e) => { ctx.oracle_fail(&format!("C15:{}", w.key), &format!("open failed: {e}"), &w.hist); return; } };
     ctx.emit(&op, "ok");
     let nclients = ctx.rng.range(3, 8) as usize;
-    let rounds = ctx.rng.range(4, 12) as usize;
+    // long histories: many rollovers, the hot streams used rarely, so that at validation time a hot
+    // stream lives in several sealed segments and not in the live one
+    let long = ctx.rng.chance(1, 4);
+    let rounds = if long { ctx.rng.range(30, 45) as usize } else { ctx.rng.range(4, 12) as usize };
+    if long { ctx.stat("conc_long_histories"); }
     let key15 = format!("C15:{}", w.key); let key16 = format!("C16:{}", w.key); let key20 = format!("C20:{}", w.key);
     // shared: acknowledged events (id, pid, stream, version) — what a reader may demand to see
     let acked: Arc<Mutex<Vec<(Uuid, u16, String, u64)>>> = Arc::new(Mutex::new(vec![]));
@@ -114,7 +118,7 @@ pub async fn conc_history(ctx: &mut Ctx, root: &std::path::Path, tag: &str) {
             let pk_idx = ctx.rng.below(w.pkeys.len() as u64) as usize;
             let pkey = w.pkeys[pk_idx]; let pid = w.pid_of(&pkey); let b = pid % w.cfg.nb;
             let mut events = vec![];
-            let conflicting = ctx.rng.chance(2, 3);
+            let conflicting = if long { ctx.rng.chance(1, 4) } else { ctx.rng.chance(2, 3) };
             let mk = |w: &mut World, ctx: &mut Ctx, stream: String, exp: ExpectedVersion, plen: usize| { let idx = w.next_event_idx; w.next_event_idx += 1;
                 GenEvent { id: sierradb::id::uuid_v7_with_partition_hash(sierradb::id::uuid_to_partition_hash(pkey)), idx, stream, exp, ts: 11, name: "c".into(), meta: vec![], payload: payload(ctx, plen) } };
             if conflicting {
@@ -125,7 +129,7 @@ pub async fn conc_history(ctx: &mut Ctx, root: &std::path::Path, tag: &str) {
                 let pl = *ctx.rng.pick(&[10usize, 200, 3000]); events.push(mk(&mut w, ctx, hot, exp, pl));
             }
             if !conflicting || ctx.rng.chance(1, 2) {
-                let plen = *ctx.rng.pick(&[0usize, 50, 500, 5000, 20000]);
+                let plen = if long { *ctx.rng.pick(&[5000usize, 20000, 20000]) } else { *ctx.rng.pick(&[0usize, 50, 500, 5000, 20000]) };
                 events.push(mk(&mut w, ctx, format!("own-{c}-{pk_idx}"), ExpectedVersion::Any, plen));
             }
             txs.push(GenTx { pkey, pk_idx, pid, exp_seq: ExpectedVersion::Any, events });
@@ -216,6 +220,55 @@ pub async fn conc_history(ctx: &mut Ctx, root: &std::path::Path, tag: &str) {
     let _ = std::fs::remove_dir_all(&w.dir);
 }
 
+/// C20 under back-pressure: many writer threads (so each request queue has the minimum capacity of
+/// 16) and more concurrent clients on ONE writer than its queue holds, so that the queue is full at
+/// some of the syncer's poll instants; afterwards lone appends that only the syncer can
+/// acknowledge.  Oracle only (every append returns within the timeout and is then readable).
+pub async fn burst_history(ctx: &mut Ctx, root: &std::path::Path, tag: &str) {
+    let cfg = Cfg { nb: 64, segsize: 128 * 1024, compression: false, sync_ms: 4 };
+    let mut w = World::new(ctx, root, cfg, tag);
+    w.hist.push(format!("st open nb={} seg={} c=0  # burst scenario: 64 writer threads, 40 clients on one partition", w.cfg.nb, w.cfg.segsize));
+    let db: Database = match open_db(&w.dir, &w.cfg) { Ok(db) => db, Err(e) => { ctx.oracle_fail(&format!("C20:{}", w.key), &format!("open failed: {e}"), &w.hist); return; } };
+    let key20 = format!("C20:{} burst", w.key);
+    let pkey = w.pkeys[0]; let pid = w.pid_of(&pkey);
+    let one = |stream: String, plen: usize| -> Transaction {
+        let ev = NewEvent { event_id: sierradb::id::uuid_v7_with_partition_hash(sierradb::id::uuid_to_partition_hash(pkey)), stream_id: StreamId::new(stream).unwrap(),
+            stream_version: ExpectedVersion::Any, event_name: "b".into(), timestamp: 7, metadata: vec![], payload: vec![0x5A; plen] };
+        Transaction::new(pkey, pid, smallvec::smallvec![ev]).unwrap()
+    };
+    let timeouts = Arc::new(AtomicU64::new(0)); let done = Arc::new(AtomicU64::new(0));
+    for burst in 0..3 {
+        let mut tasks = vec![];
+        for c in 0..40 {
+            let db = db.clone(); let timeouts = timeouts.clone(); let done = done.clone();
+            let txs: Vec<Transaction> = (0..8).map(|_| one(format!("burst-{c}"), 64)).collect();
+            tasks.push(tokio::spawn(async move {
+                for t in txs {
+                    match tokio::time::timeout(APPEND_TIMEOUT, db.append_events(t)).await { Err(_) => { timeouts.fetch_add(1, Ordering::Relaxed); break; } Ok(_) => { done.fetch_add(1, Ordering::Relaxed); } }
+                }
+            }));
+        }
+        for t in tasks { let _ = t.await; }
+        w.hist.push(format!("# burst {burst}: 40 clients x 8 single-event appends on partition {pid}"));
+        // lone appends: nothing follows them, only the syncer's FlushPoll can acknowledge them
+        for k in 0..2 {
+            tokio::time::sleep(Duration::from_millis(1)).await;
+            let t = one(format!("lone-{burst}-{k}"), 32); let id = t.events()[0].event_id;
+            match tokio::time::timeout(APPEND_TIMEOUT, db.append_events(t)).await {
+                Err(_) => { timeouts.fetch_add(1, Ordering::Relaxed); }
+                Ok(Ok(_)) => { done.fetch_add(1, Ordering::Relaxed);
+                    if !matches!(db.read_event(pid, id).await, Ok(Some(_))) { ctx.oracle_fail(&format!("C01:{} burst", w.key), "lone append after a burst acknowledged but not readable", &w.hist); } }
+                Ok(Err(e)) => ctx.oracle_fail(&key20, &format!("lone append after a burst failed: {e}"), &w.hist),
+            }
+        }
+    }
+    let (to, dn) = (timeouts.load(Ordering::Relaxed), done.load(Ordering::Relaxed));
+    ctx.stat_add("burst_appends_done", dn); ctx.stat("burst_scenarios");
+    if to > 0 { ctx.oracle_fail(&key20, &format!("{to} append(s) did not return within {APPEND_TIMEOUT:?} under back-pressure (40 concurrent clients on one writer thread whose queue holds 16 requests; {dn} returned)"), &w.hist); }
+    db.shutdown().await;
+    let _ = std::fs::remove_dir_all(&w.dir);
+}
+
 pub fn run(ctx: &mut Ctx) {
     // widen the windows: sleep at the pause points of the writer
     let sleeper_seed = AtomicU64::new(ctx.rng.next());
@@ -231,5 +284,6 @@ pub fn run(ctx: &mut Ctx) {
     let root = if std::path::Path::new("/dev/shm").is_dir() { tempfile::tempdir_in("/dev/shm").unwrap() } else { tempfile::tempdir().unwrap() };
     let n = if ctx.thorough() { 250 } else { 25 };
     for i in 0..n { rt.block_on(conc_history(ctx, root.path(), &format!("{i}"))); }
+    for i in 0..(if ctx.thorough() { 12 } else { 2 }) { rt.block_on(burst_history(ctx, root.path(), &format!("b{i}"))); }
     *sierradb::writer_thread_pool::verif::PAUSE_HOOK.write().unwrap() = None;
 }
